@@ -1,88 +1,636 @@
 (** * MaskProofs: the two bit-mask implementations refine the [N]-based masks of the world model,
     for every component ID below their width. Properties C18 (capacity usable, toTypes), C20 (tiny
-    build), C03 (filter matching is set inclusion). To be filled. *)
+    build), C03 (filter matching is set inclusion). *)
 From Ark Require Import Model.Base Model.Mask.
+From Coq Require Import Lia ZifyN ZifyNat ZifyBool Sorted.
+
+Local Ltac Zify.zify_post_hook ::= Z.div_mod_to_equations.
 
 Definition word_ok (x : N) : Prop := (x < w64)%N.
 Definition m256_ok (b : m256) : Prop := word_ok (b0 b) /\ word_ok (b1 b) /\ word_ok (b2 b) /\ word_ok (b3 b).
 
+(** *** Auxiliary facts *)
+
+Lemma of_nat_eqb : forall i j, N.eqb (N.of_nat i) (N.of_nat j) = Nat.eqb i j.
+Proof.
+  intros i j. destruct (N.eqb_spec (N.of_nat i) (N.of_nat j)), (Nat.eqb_spec i j); try reflexivity; lia.
+Qed.
+
 (** *** Set semantics of the N-based masks *)
 Theorem mk_get_set : forall m i j, mk_get (mk_set m i) j = (Nat.eqb i j || mk_get m j)%bool.
-Admitted.
+Proof.
+  intros. unfold mk_get, mk_set. rewrite N.setbit_eqb, of_nat_eqb. reflexivity.
+Qed.
+
 Theorem mk_get_clear : forall m i j, mk_get (mk_clear m i) j = (negb (Nat.eqb i j) && mk_get m j)%bool.
-Admitted.
+Proof.
+  intros. unfold mk_get, mk_clear. rewrite N.clearbit_eqb, of_nat_eqb. apply andb_comm.
+Qed.
+
 Theorem mk_get_or : forall a b j, mk_get (mk_or a b) j = (mk_get a j || mk_get b j)%bool.
-Admitted.
+Proof.
+  intros. unfold mk_get, mk_or. apply N.lor_spec.
+Qed.
+
 Theorem mk_contains_spec : forall a b, mk_contains a b = true <-> (forall j, mk_get b j = true -> mk_get a j = true).
-Admitted.
+Proof.
+  intros a b. unfold mk_contains, mk_get. rewrite N.eqb_eq. split.
+  - intros H j Hb. rewrite <- H in Hb. rewrite N.land_spec in Hb.
+    apply andb_true_iff in Hb. tauto.
+  - intros H. apply N.bits_inj. intro n. rewrite N.land_spec.
+    specialize (H (N.to_nat n)). rewrite N2Nat.id in H.
+    destruct (N.testbit b n).
+    + rewrite H by reflexivity. reflexivity.
+    + apply andb_false_r.
+Qed.
+
 Theorem mk_contains_any_spec : forall a b, mk_contains_any a b = true <-> (exists j, mk_get a j = true /\ mk_get b j = true).
-Admitted.
+Proof.
+  intros a b. unfold mk_contains_any, mk_get. rewrite negb_true_iff, N.eqb_neq. split.
+  - intros H. apply N.bit_log2 in H. rewrite N.land_spec in H. apply andb_true_iff in H.
+    exists (N.to_nat (N.log2 (N.land a b))). rewrite N2Nat.id. exact H.
+  - intros (j & Ha & Hb) H.
+    assert (E : N.testbit (N.land a b) (N.of_nat j) = true).
+    { rewrite N.land_spec, Ha, Hb. reflexivity. }
+    rewrite H, N.bits_0 in E. discriminate.
+Qed.
+
 Theorem mk_get_not : forall bits m j, j < bits -> mk_get (mk_not bits m) j = negb (mk_get m j).
-Admitted.
+Proof.
+  intros bits m j H. unfold mk_get, mk_not. rewrite N.lxor_spec.
+  rewrite N.ones_spec_low by lia. apply xorb_true_r.
+Qed.
+
+Lemma mk_get_fold_set : forall l m j,
+  mk_get (fold_left mk_set l m) j = true <-> (mk_get m j = true \/ In j l).
+Proof.
+  induction l as [|x l IH]; intros m j; simpl.
+  - tauto.
+  - rewrite IH, mk_get_set, orb_true_iff, Nat.eqb_eq. tauto.
+Qed.
+
 Theorem mk_get_of_list : forall l j, mk_get (mk_of_list l) j = true <-> In j l.
-Admitted.
+Proof.
+  intros l j. unfold mk_of_list. rewrite mk_get_fold_set.
+  unfold mk_get. rewrite N.bits_0. split; [intros [H|H]; [discriminate|exact H] | tauto].
+Qed.
+
+Lemma mk_to_list_from_spec : forall m n i j,
+  In j (mk_to_list_from m i n) <-> (i <= j < i + n /\ mk_get m j = true).
+Proof.
+  intros m n. induction n as [|n IH]; intros i j; cbn [mk_to_list_from].
+  - simpl. split; [tauto | lia].
+  - destruct (mk_get m i) eqn:E.
+    + simpl. rewrite IH. split.
+      * intros [->|H]; [split; [lia|exact E] | split; [lia|tauto]].
+      * intros (H1 & H2). destruct (Nat.eq_dec i j); [left; assumption | right; split; [lia|assumption]].
+    + rewrite IH. split.
+      * intros (H1 & H2). split; [lia|assumption].
+      * intros (H1 & H2). split; [|assumption].
+        destruct (Nat.eq_dec i j); [subst; congruence | lia].
+Qed.
+
 Theorem mk_to_list_spec : forall m n j, In j (mk_to_list m n) <-> (j < n /\ mk_get m j = true).
-Admitted.
+Proof.
+  intros. unfold mk_to_list. rewrite mk_to_list_from_spec. split; intros (H1 & H2); (split; [lia|assumption]).
+Qed.
+
+Lemma mk_to_list_from_ssorted : forall m n i, StronglySorted lt (mk_to_list_from m i n).
+Proof.
+  intros m n. induction n as [|n IH]; intros i; cbn [mk_to_list_from].
+  - constructor.
+  - destruct (mk_get m i); [|apply IH].
+    constructor; [apply IH|].
+    apply Forall_forall. intros x Hx. apply mk_to_list_from_spec in Hx. lia.
+Qed.
+
+Lemma ssorted_lt_nodup : forall l, StronglySorted lt l -> NoDup l.
+Proof.
+  induction 1 as [|a l Hs IH Hf]; constructor; [|exact IH].
+  intro Hin. rewrite Forall_forall in Hf. apply Hf in Hin. lia.
+Qed.
+
+Lemma ssorted_lt_nth : forall l, StronglySorted lt l ->
+  forall i j x y, i < j -> nth_error l i = Some x -> nth_error l j = Some y -> x < y.
+Proof.
+  induction 1 as [|a l Hs IH Hf]; intros i j x y Hij Hi Hj.
+  - destruct i; discriminate.
+  - destruct j as [|j]; [lia|]. simpl in Hj.
+    destruct i as [|i]; simpl in Hi.
+    + injection Hi as <-. rewrite Forall_forall in Hf. apply Hf.
+      eapply nth_error_In; eassumption.
+    + eapply IH; [|eassumption|eassumption]. lia.
+Qed.
+
 Theorem mk_to_list_sorted : forall m n, NoDup (mk_to_list m n) /\
   (forall i j x y, i < j -> nth_error (mk_to_list m n) i = Some x -> nth_error (mk_to_list m n) j = Some y -> x < y).
-Admitted.
+Proof.
+  intros m n. unfold mk_to_list. split.
+  - apply ssorted_lt_nodup, mk_to_list_from_ssorted.
+  - apply ssorted_lt_nth, mk_to_list_from_ssorted.
+Qed.
+
 Theorem mk_eq_ext : forall a b, (forall j, mk_get a j = mk_get b j) -> a = b.
-Admitted.
+Proof.
+  intros a b H. apply N.bits_inj. intro n. specialize (H (N.to_nat n)).
+  unfold mk_get in H. rewrite N2Nat.id in H. exact H.
+Qed.
+
+(** *** Word-level auxiliary facts *)
+
+Lemma w64_pow : w64 = (2 ^ 64)%N.
+Proof. reflexivity. Qed.
+
+Lemma word_ok_bits : forall x, word_ok x <-> (forall i, (64 <= i)%N -> N.testbit x i = false).
+Proof.
+  intro x. unfold word_ok. rewrite w64_pow. split.
+  - intros H i Hi. destruct (N.eq_dec x 0) as [->|Hx]; [apply N.bits_0|].
+    apply N.bits_above_log2. apply N.log2_lt_pow2 in H; lia.
+  - intros H.
+    assert (E : x = (x mod 2 ^ 64)%N).
+    { apply N.bits_inj. intro i. destruct (N.ltb_spec i 64).
+      - rewrite N.mod_pow2_bits_low by assumption. reflexivity.
+      - rewrite N.mod_pow2_bits_high by assumption. apply H. assumption. }
+    rewrite E. apply N.mod_lt. apply N.pow_nonzero. discriminate.
+Qed.
+
+Lemma word_high_bits : forall x i, word_ok x -> (64 <= i)%N -> N.testbit x i = false.
+Proof. intros x i H. apply word_ok_bits. exact H. Qed.
+Arguments word_high_bits [x i] _ _.
+
+Lemma wnot_spec : forall x i,
+  N.testbit (wnot x) i = if (i <? 64)%N then negb (N.testbit x i) else N.testbit x i.
+Proof.
+  intros x i. unfold wnot. rewrite N.lxor_spec. destruct (N.ltb_spec i 64).
+  - rewrite N.ones_spec_low by lia. apply xorb_true_r.
+  - rewrite N.ones_spec_high by lia. apply xorb_false_r.
+Qed.
+
+Lemma word_ok_lor : forall x y, word_ok x -> word_ok y -> word_ok (N.lor x y).
+Proof.
+  intros x y Hx Hy. apply word_ok_bits. intros i Hi.
+  rewrite N.lor_spec, (word_high_bits Hx Hi), (word_high_bits Hy Hi). reflexivity.
+Qed.
+
+Lemma word_ok_land_l : forall x y, word_ok x -> word_ok (N.land x y).
+Proof.
+  intros x y Hx. apply word_ok_bits. intros i Hi.
+  rewrite N.land_spec, (word_high_bits Hx Hi). reflexivity.
+Qed.
+
+Lemma word_ok_wnot : forall x, word_ok x -> word_ok (wnot x).
+Proof.
+  intros x Hx. apply word_ok_bits. intros i Hi. rewrite wnot_spec.
+  destruct (N.ltb_spec i 64); [lia|]. apply (word_high_bits Hx Hi).
+Qed.
+
+Lemma word_ok_pow2 : forall k, (k < 64)%N -> word_ok (2 ^ k).
+Proof.
+  intros k Hk. apply word_ok_bits. intros i Hi. apply N.pow2_bits_false. lia.
+Qed.
+
+Lemma land_pow2_eqb : forall x k, N.eqb (N.land x (2 ^ k)) (2 ^ k) = N.testbit x k.
+Proof.
+  intros x k. destruct (N.testbit x k) eqn:E.
+  - apply N.eqb_eq. apply N.bits_inj. intro m. rewrite N.land_spec, N.pow2_bits_eqb.
+    destruct (N.eqb_spec k m) as [->|Hn]; [rewrite E; reflexivity | apply andb_false_r].
+  - apply N.eqb_neq. intro H.
+    assert (F : N.testbit (N.land x (2 ^ k)) k = N.testbit (2 ^ k) k) by (rewrite H; reflexivity).
+    rewrite N.land_spec, E, N.pow2_bits_true in F. discriminate.
+Qed.
+
+Lemma shiftr6 : forall n, N.shiftr n 6 = (n / 64)%N.
+Proof. intro n. rewrite N.shiftr_div_pow2. reflexivity. Qed.
+
+Lemma land63 : forall n, N.land n 63 = (n mod 64)%N.
+Proof. intro n. change 63%N with (N.ones 6). rewrite N.land_ones. reflexivity. Qed.
+
+Lemma word_ok_word : forall b k, m256_ok b -> word_ok (m256_word b k).
+Proof.
+  intros b k (H0 & H1 & H2 & H3).
+  destruct k as [|[[p|p|]|[p|p|]|]]; assumption.
+Qed.
+
+Lemma setword_ok : forall b idx x, m256_ok b -> word_ok x -> m256_ok (m256_setword b idx x).
+Proof.
+  intros b idx x (H0 & H1 & H2 & H3) Hx.
+  destruct idx as [|[[p|p|]|[p|p|]|]]; unfold m256_ok; cbn [m256_setword b0 b1 b2 b3]; tauto.
+Qed.
+
+Lemma word_setword : forall b idx x k, (idx < 4)%N -> (k < 4)%N ->
+  m256_word (m256_setword b idx x) k = if (k =? idx)%N then x else m256_word b k.
+Proof.
+  intros b idx x k Hi Hk.
+  assert (Ei : (idx = 0 \/ idx = 1 \/ idx = 2 \/ idx = 3)%N) by lia.
+  assert (Ek : (k = 0 \/ k = 1 \/ k = 2 \/ k = 3)%N) by lia.
+  destruct Ei as [->|[->|[->| ->]]]; destruct Ek as [->|[->|[->| ->]]]; reflexivity.
+Qed.
+
+(** The bits of the abstraction, word by word. *)
+Lemma m256_to_N_testbit : forall b j, m256_ok b ->
+  N.testbit (m256_to_N b) j =
+  if (j <? 256)%N then N.testbit (m256_word b (j / 64)) (j mod 64) else false.
+Proof.
+  intros b j (H0 & H1 & H2 & H3).
+  unfold m256_to_N. rewrite !N.lor_spec.
+  destruct (N.ltb_spec j 256) as [Hj|Hj].
+  - assert (Hc : (j / 64 = 0 \/ j / 64 = 1 \/ j / 64 = 2 \/ j / 64 = 3)%N) by lia.
+    destruct Hc as [Hc|[Hc|[Hc|Hc]]]; rewrite Hc; cbn [m256_word].
+    + rewrite (N.shiftl_spec_low (b1 b) 64 j), (N.shiftl_spec_low (b2 b) 128 j),
+        (N.shiftl_spec_low (b3 b) 192 j) by lia.
+      rewrite !orb_false_r. f_equal. lia.
+    + rewrite (word_high_bits (i:=j) H0) by lia.
+      rewrite (N.shiftl_spec_high' (b1 b) 64 j) by lia.
+      rewrite (N.shiftl_spec_low (b2 b) 128 j), (N.shiftl_spec_low (b3 b) 192 j) by lia.
+      rewrite !orb_false_r. cbn [orb]. f_equal. lia.
+    + rewrite (word_high_bits (i:=j) H0) by lia.
+      rewrite (N.shiftl_spec_high' (b1 b) 64 j) by lia.
+      rewrite (word_high_bits (i:=j - 64) H1) by lia.
+      rewrite (N.shiftl_spec_high' (b2 b) 128 j) by lia.
+      rewrite (N.shiftl_spec_low (b3 b) 192 j) by lia.
+      rewrite !orb_false_r. cbn [orb]. f_equal. lia.
+    + rewrite (word_high_bits (i:=j) H0) by lia.
+      rewrite (N.shiftl_spec_high' (b1 b) 64 j) by lia.
+      rewrite (word_high_bits (i:=j - 64) H1) by lia.
+      rewrite (N.shiftl_spec_high' (b2 b) 128 j) by lia.
+      rewrite (word_high_bits (i:=j - 128) H2) by lia.
+      rewrite (N.shiftl_spec_high' (b3 b) 192 j) by lia.
+      cbn [orb]. f_equal. lia.
+  - rewrite (word_high_bits (i:=j) H0) by lia.
+    rewrite (N.shiftl_spec_high' (b1 b) 64 j) by lia.
+    rewrite (word_high_bits (i:=j - 64) H1) by lia.
+    rewrite (N.shiftl_spec_high' (b2 b) 128 j) by lia.
+    rewrite (word_high_bits (i:=j - 128) H2) by lia.
+    rewrite (N.shiftl_spec_high' (b3 b) 192 j) by lia.
+    rewrite (word_high_bits (i:=j - 192) H3) by lia.
+    reflexivity.
+Qed.
+
+Lemma m256_get_word : forall b n,
+  m256_get b n = N.testbit (m256_word b (n / 64)) (n mod 64).
+Proof.
+  intros b n. unfold m256_get. cbv zeta.
+  rewrite shiftr6, land63, N.shiftl_1_l. apply land_pow2_eqb.
+Qed.
 
 (** *** bitMask256 refines N-masks (all 256 bits, i.e. every word and its boundaries) *)
 Theorem m256_get_refines : forall b i, m256_ok b -> i < 256 ->
   m256_get b (N.of_nat i) = mk_get (m256_to_N b) i.
-Admitted.
+Proof.
+  intros b i Hb Hi. rewrite m256_get_word. unfold mk_get.
+  rewrite m256_to_N_testbit by assumption.
+  destruct (N.ltb_spec (N.of_nat i) 256); [reflexivity | lia].
+Qed.
+
 Theorem m256_set_refines : forall b i, m256_ok b -> i < 256 ->
   m256_ok (m256_set b (N.of_nat i)) /\ m256_to_N (m256_set b (N.of_nat i)) = mk_set (m256_to_N b) i.
-Admitted.
+Proof.
+  intros b i Hb Hi. set (n := N.of_nat i). assert (Hn : (n < 256)%N) by lia.
+  assert (Hok : m256_ok (m256_set b n)).
+  { unfold m256_set. cbv zeta. apply setword_ok; [assumption|].
+    apply word_ok_lor; [apply word_ok_word; assumption|].
+    rewrite land63, N.shiftl_1_l. apply word_ok_pow2. lia. }
+  split; [exact Hok|].
+  apply N.bits_inj. intro j. unfold mk_set. fold n. rewrite N.setbit_eqb.
+  rewrite !m256_to_N_testbit by assumption.
+  destruct (N.ltb_spec j 256) as [Hj|Hj].
+  - unfold m256_set. cbv zeta. rewrite shiftr6, land63, N.shiftl_1_l.
+    rewrite word_setword by lia.
+    destruct (N.eqb_spec (j / 64) (n / 64)) as [E|E].
+    + rewrite N.lor_spec, N.pow2_bits_eqb, E.
+      replace (n mod 64 =? j mod 64)%N with (n =? j)%N
+        by (destruct (N.eqb_spec n j), (N.eqb_spec (n mod 64) (j mod 64)); try reflexivity; lia).
+      apply orb_comm.
+    + replace (n =? j)%N with false by (destruct (N.eqb_spec n j); [subst; congruence | reflexivity]).
+      reflexivity.
+  - replace (n =? j)%N with false by (destruct (N.eqb_spec n j); [lia | reflexivity]).
+    reflexivity.
+Qed.
+
 Theorem m256_clear_refines : forall b i, m256_ok b -> i < 256 ->
   m256_ok (m256_clear b (N.of_nat i)) /\ m256_to_N (m256_clear b (N.of_nat i)) = mk_clear (m256_to_N b) i.
-Admitted.
+Proof.
+  intros b i Hb Hi. set (n := N.of_nat i). assert (Hn : (n < 256)%N) by lia.
+  assert (Hok : m256_ok (m256_clear b n)).
+  { unfold m256_clear. cbv zeta. apply setword_ok; [assumption|].
+    apply word_ok_land_l. apply word_ok_word; assumption. }
+  split; [exact Hok|].
+  apply N.bits_inj. intro j. unfold mk_clear. fold n. rewrite N.clearbit_eqb.
+  rewrite !m256_to_N_testbit by assumption.
+  destruct (N.ltb_spec j 256) as [Hj|Hj]; [|reflexivity].
+  unfold m256_clear. cbv zeta. rewrite shiftr6, land63, N.shiftl_1_l.
+  rewrite word_setword by lia.
+  destruct (N.eqb_spec (j / 64) (n / 64)) as [E|E].
+  - rewrite N.land_spec, wnot_spec, N.pow2_bits_eqb, E.
+    destruct (N.ltb_spec (j mod 64) 64); [|lia].
+    replace (n mod 64 =? j mod 64)%N with (n =? j)%N
+      by (destruct (N.eqb_spec n j), (N.eqb_spec (n mod 64) (j mod 64)); try reflexivity; lia).
+    reflexivity.
+  - replace (n =? j)%N with false by (destruct (N.eqb_spec n j); [subst; congruence | reflexivity]).
+    cbn [negb]. rewrite andb_true_r. reflexivity.
+Qed.
+
+Lemma word_or : forall a b k,
+  m256_word (m256_or a b) k = N.lor (m256_word a k) (m256_word b k).
+Proof. intros a b k. destruct k as [|[[p|p|]|[p|p|]|]]; reflexivity. Qed.
+
 Theorem m256_or_refines : forall a b, m256_ok a -> m256_ok b ->
   m256_ok (m256_or a b) /\ m256_to_N (m256_or a b) = mk_or (m256_to_N a) (m256_to_N b).
-Admitted.
+Proof.
+  intros a b Ha Hb.
+  assert (Hok : m256_ok (m256_or a b)).
+  { destruct Ha as (A0 & A1 & A2 & A3), Hb as (B0 & B1 & B2 & B3).
+    unfold m256_ok, m256_or; cbn [b0 b1 b2 b3]. repeat split; apply word_ok_lor; assumption. }
+  split; [exact Hok|].
+  apply N.bits_inj. intro j. unfold mk_or. rewrite N.lor_spec.
+  rewrite !m256_to_N_testbit by assumption.
+  destruct (j <? 256)%N; [|reflexivity].
+  rewrite word_or, N.lor_spec. reflexivity.
+Qed.
+
+Lemma word_not : forall b k, m256_word (m256_not b) k = wnot (m256_word b k).
+Proof. intros b k. destruct k as [|[[p|p|]|[p|p|]|]]; reflexivity. Qed.
+
 Theorem m256_not_refines : forall b, m256_ok b ->
   m256_ok (m256_not b) /\ m256_to_N (m256_not b) = mk_not 256 (m256_to_N b).
-Admitted.
-Theorem m256_contains_refines : forall a b, m256_ok a -> m256_ok b ->
-  m256_contains a b = mk_contains (m256_to_N a) (m256_to_N b).
-Admitted.
-Theorem m256_contains_any_refines : forall a b, m256_ok a -> m256_ok b ->
-  m256_contains_any a b = mk_contains_any (m256_to_N a) (m256_to_N b).
-Admitted.
-Theorem m256_is_zero_refines : forall b, m256_ok b -> m256_is_zero b = mk_is_zero (m256_to_N b).
-Admitted.
+Proof.
+  intros b Hb.
+  assert (Hok : m256_ok (m256_not b)).
+  { destruct Hb as (B0 & B1 & B2 & B3).
+    unfold m256_ok, m256_not; cbn [b0 b1 b2 b3]. repeat split; apply word_ok_wnot; assumption. }
+  split; [exact Hok|].
+  apply N.bits_inj. intro j. unfold mk_not. change (N.of_nat 256) with 256%N.
+  rewrite N.lxor_spec. rewrite !m256_to_N_testbit by assumption.
+  destruct (N.ltb_spec j 256) as [Hj|Hj].
+  - rewrite N.ones_spec_low by assumption. rewrite word_not, wnot_spec.
+    destruct (N.ltb_spec (j mod 64) 64); [|lia].
+    rewrite xorb_true_r. reflexivity.
+  - rewrite N.ones_spec_high by assumption. reflexivity.
+Qed.
+
+(** Word-wise intersection (not part of the Go API; [Contains]/[ContainsAny] compute it inline). *)
+Definition m256_and (a b : m256) : m256 :=
+  {| b0 := N.land (b0 a) (b0 b); b1 := N.land (b1 a) (b1 b);
+     b2 := N.land (b2 a) (b2 b); b3 := N.land (b3 a) (b3 b) |}.
+
+Lemma word_and : forall a b k,
+  m256_word (m256_and a b) k = N.land (m256_word a k) (m256_word b k).
+Proof. intros a b k. destruct k as [|[[p|p|]|[p|p|]|]]; reflexivity. Qed.
+
+Lemma m256_and_refines : forall a b, m256_ok a -> m256_ok b ->
+  m256_ok (m256_and a b) /\ m256_to_N (m256_and a b) = N.land (m256_to_N a) (m256_to_N b).
+Proof.
+  intros a b Ha Hb.
+  assert (Hok : m256_ok (m256_and a b)).
+  { destruct Ha as (A0 & A1 & A2 & A3).
+    unfold m256_ok, m256_and; cbn [b0 b1 b2 b3]. repeat split; apply word_ok_land_l; assumption. }
+  split; [exact Hok|].
+  apply N.bits_inj. intro j. rewrite N.land_spec.
+  rewrite !m256_to_N_testbit by assumption.
+  destruct (j <? 256)%N; [|reflexivity].
+  rewrite word_and, N.land_spec. reflexivity.
+Qed.
+
+Lemma m256_to_N_word_inj : forall a b, m256_ok a -> m256_ok b -> m256_to_N a = m256_to_N b ->
+  forall k, (k < 4)%N -> m256_word a k = m256_word b k.
+Proof.
+  intros a b Ha Hb H k Hk. apply N.bits_inj. intro i.
+  destruct (N.ltb_spec i 64) as [Hi|Hi].
+  - pose proof (m256_to_N_testbit a (64 * k + i)%N Ha) as E1.
+    pose proof (m256_to_N_testbit b (64 * k + i)%N Hb) as E2.
+    rewrite H in E1. rewrite E1 in E2. clear E1.
+    destruct (N.ltb_spec (64 * k + i)%N 256%N); [|lia].
+    replace ((64 * k + i) / 64)%N with k in E2 by lia.
+    replace ((64 * k + i) mod 64)%N with i in E2 by lia.
+    exact E2.
+  - rewrite (word_high_bits (word_ok_word a k Ha) Hi), (word_high_bits (word_ok_word b k Hb) Hi).
+    reflexivity.
+Qed.
+
+Lemma m256_to_N_inj : forall a b, m256_ok a -> m256_ok b -> m256_to_N a = m256_to_N b -> a = b.
+Proof.
+  intros a b Ha Hb H.
+  pose proof (m256_to_N_word_inj a b Ha Hb H) as Hw.
+  pose proof (Hw 0%N eq_refl) as E0. pose proof (Hw 1%N eq_refl) as E1.
+  pose proof (Hw 2%N eq_refl) as E2. pose proof (Hw 3%N eq_refl) as E3.
+  destruct a as [a0 a1 a2 a3], b as [c0 c1 c2 c3]. cbn [m256_word b0 b1 b2 b3] in E0, E1, E2, E3. subst. reflexivity.
+Qed.
+
 Theorem m256_equals_refines : forall a b, m256_ok a -> m256_ok b ->
   m256_equals a b = N.eqb (m256_to_N a) (m256_to_N b).
-Admitted.
+Proof.
+  intros a b Ha Hb. apply eq_true_iff_eq. unfold m256_equals.
+  rewrite !andb_true_iff, !N.eqb_eq. split.
+  - intros (((E0 & E1) & E2) & E3). destruct a as [a0 a1 a2 a3], b as [c0 c1 c2 c3]. cbn [b0 b1 b2 b3] in E0, E1, E2, E3.
+    subst. reflexivity.
+  - intros H. apply m256_to_N_inj in H; try assumption. subst. repeat split.
+Qed.
+
+Theorem m256_contains_refines : forall a b, m256_ok a -> m256_ok b ->
+  m256_contains a b = mk_contains (m256_to_N a) (m256_to_N b).
+Proof.
+  intros a b Ha Hb. destruct (m256_and_refines a b Ha Hb) as (Hok & E).
+  change (m256_contains a b) with (m256_equals (m256_and a b) b).
+  rewrite m256_equals_refines by assumption. rewrite E. reflexivity.
+Qed.
+
 Theorem m256_zero_ok : m256_ok m256_zero /\ m256_to_N m256_zero = 0%N.
-Admitted.
+Proof.
+  split; [|reflexivity]. unfold m256_ok, word_ok, m256_zero; cbn [b0 b1 b2 b3].
+  repeat split; reflexivity.
+Qed.
+
+Theorem m256_is_zero_refines : forall b, m256_ok b -> m256_is_zero b = mk_is_zero (m256_to_N b).
+Proof.
+  intros b Hb. change (m256_is_zero b) with (m256_equals b m256_zero).
+  rewrite m256_equals_refines by (assumption || apply m256_zero_ok). reflexivity.
+Qed.
+
+Theorem m256_contains_any_refines : forall a b, m256_ok a -> m256_ok b ->
+  m256_contains_any a b = mk_contains_any (m256_to_N a) (m256_to_N b).
+Proof.
+  intros a b Ha Hb. destruct (m256_and_refines a b Ha Hb) as (Hok & E).
+  unfold mk_contains_any. rewrite <- E.
+  change (N.eqb (m256_to_N (m256_and a b)) 0) with (mk_is_zero (m256_to_N (m256_and a b))).
+  rewrite <- m256_is_zero_refines by assumption.
+  unfold m256_contains_any, m256_is_zero, m256_and; cbn [b0 b1 b2 b3].
+  rewrite !negb_andb. reflexivity.
+Qed.
+
+(** *** toTypes *)
+
+Lemma mk_to_list_from_app : forall m a b i,
+  mk_to_list_from m i (a + b) = mk_to_list_from m i a ++ mk_to_list_from m (i + a) b.
+Proof.
+  intros m a. induction a as [|a IH]; intros b i.
+  - rewrite Nat.add_0_r. reflexivity.
+  - cbn [Nat.add mk_to_list_from]. rewrite IH. rewrite Nat.add_succ_r. cbn [Nat.add].
+    destruct (mk_get m i); reflexivity.
+Qed.
+
+Lemma mk_to_list_from_nil : forall m n i,
+  (forall j, i <= j < i + n -> mk_get m j = false) -> mk_to_list_from m i n = [].
+Proof.
+  intros m n. induction n as [|n IH]; intros i H; cbn [mk_to_list_from]; [reflexivity|].
+  rewrite H by lia. apply IH. intros j Hj. apply H. lia.
+Qed.
+
+Lemma mk_to_list_from_trunc : forall m total,
+  (forall j, mk_get m j = true -> j < total) ->
+  forall n i, mk_to_list_from m i (Nat.min (total - i) n) = mk_to_list_from m i n.
+Proof.
+  intros m total H n. induction n as [|n IH]; intros i.
+  - rewrite Nat.min_0_r. reflexivity.
+  - destruct (le_lt_dec total i) as [Hle|Hlt].
+    + replace (total - i) with 0 by lia. cbn [Nat.min]. change (mk_to_list_from m i 0) with (@nil nat).
+      symmetry. apply mk_to_list_from_nil. intros j Hj.
+      destruct (mk_get m j) eqn:E; [|reflexivity]. apply H in E. lia.
+    + replace (total - i) with (S (total - S i)) by lia.
+      rewrite <- Nat.succ_min_distr. cbn [mk_to_list_from]. rewrite IH. reflexivity.
+Qed.
+
+Lemma mk_to_list_from_256 : forall m,
+  mk_to_list_from m 0 256 =
+  mk_to_list_from m 0 64 ++ mk_to_list_from m 64 64 ++ mk_to_list_from m 128 64 ++ mk_to_list_from m 192 64.
+Proof.
+  intro m. change 256 with (64 + (64 + (64 + 64))).
+  rewrite !mk_to_list_from_app. reflexivity.
+Qed.
+
+Lemma m256_scan_spec : forall b base, m256_ok b -> forall cnt j, base + j + cnt <= 256 ->
+  m256_scan b base j cnt = mk_to_list_from (m256_to_N b) (base + j) cnt.
+Proof.
+  intros b base Hb cnt. induction cnt as [|cnt IH]; intros j Hj; cbn [m256_scan mk_to_list_from].
+  - reflexivity.
+  - rewrite m256_get_refines by (assumption || lia). rewrite IH by lia.
+    rewrite Nat.add_succ_r. reflexivity.
+Qed.
+
+Lemma word_zero_bits : forall b k, m256_ok b -> k < 4 -> m256_word b (N.of_nat k) = 0%N ->
+  forall j, 64 * k <= j < 64 * k + 64 -> mk_get (m256_to_N b) j = false.
+Proof.
+  intros b k Hb Hk Hz j Hj. unfold mk_get. rewrite m256_to_N_testbit by assumption.
+  destruct (N.ltb_spec (N.of_nat j) 256); [|reflexivity].
+  replace (N.of_nat j / 64)%N with (N.of_nat k) by lia.
+  rewrite Hz. apply N.bits_0.
+Qed.
+
+Lemma m256_to_types_piece : forall b total i, m256_ok b -> i < 4 ->
+  (forall j, mk_get (m256_to_N b) j = true -> j < total) ->
+  (if N.eqb (m256_word b (N.of_nat i)) 0 then []
+   else m256_scan b (64 * i) 0 (Nat.min (total - 64 * i) 64)) =
+  mk_to_list_from (m256_to_N b) (64 * i) 64.
+Proof.
+  intros b total i Hb Hi H.
+  rewrite <- (mk_to_list_from_trunc (m256_to_N b) total H 64 (64 * i)).
+  destruct (N.eqb_spec (m256_word b (N.of_nat i)) 0) as [Hz|Hz].
+  - symmetry. apply mk_to_list_from_nil. intros j Hj.
+    apply (word_zero_bits b i Hb Hi Hz). lia.
+  - rewrite m256_scan_spec by (assumption || lia). rewrite Nat.add_0_r. reflexivity.
+Qed.
 
 (** toTypes (as repaired): for every registered count up to and including 256 and every mask whose
     bits are all below that count, the result is the ascending list of set bits. *)
 Theorem m256_to_types_spec : forall b total, m256_ok b -> total <= 256 ->
   (forall j, mk_get (m256_to_N b) j = true -> j < total) ->
   m256_to_types b total = mk_to_list (m256_to_N b) total.
-Admitted.
+Proof.
+  intros b total Hb Ht H. unfold m256_to_types. cbn [flat_map].
+  rewrite (m256_to_types_piece b total 0 Hb), (m256_to_types_piece b total 1 Hb),
+    (m256_to_types_piece b total 2 Hb), (m256_to_types_piece b total 3 Hb) by (assumption || lia).
+  rewrite app_nil_r. unfold mk_to_list.
+  transitivity (mk_to_list_from (m256_to_N b) 0 256).
+  - rewrite mk_to_list_from_256. reflexivity.
+  - rewrite <- (mk_to_list_from_trunc (m256_to_N b) total H 256 0). f_equal. lia.
+Qed.
 
 (** *** bitMask64 refines N-masks below 64 bits *)
+
+Lemma m64_bit : forall n, (n < 64)%N -> (N.shiftl 1 n mod w64)%N = (2 ^ n)%N.
+Proof.
+  intros n Hn. rewrite N.shiftl_1_l. apply N.mod_small. rewrite w64_pow.
+  apply N.pow_lt_mono_r; lia.
+Qed.
+
 Theorem m64_get_refines : forall b i, word_ok b -> i < 64 -> m64_get b (N.of_nat i) = mk_get b i.
-Admitted.
+Proof.
+  intros b i Hb Hi. unfold m64_get, mk_get. cbv zeta. rewrite m64_bit by lia. apply land_pow2_eqb.
+Qed.
+
 Theorem m64_set_refines : forall b i, word_ok b -> i < 64 ->
   word_ok (m64_set b (N.of_nat i)) /\ m64_set b (N.of_nat i) = mk_set b i.
-Admitted.
+Proof.
+  intros b i Hb Hi. unfold m64_set, mk_set. rewrite m64_bit by lia. split.
+  - apply word_ok_lor; [assumption|]. apply word_ok_pow2. lia.
+  - apply N.bits_inj. intro j. rewrite N.lor_spec, N.setbit_eqb, N.pow2_bits_eqb. apply orb_comm.
+Qed.
+
 Theorem m64_clear_refines : forall b i, word_ok b -> i < 64 ->
   word_ok (m64_clear b (N.of_nat i)) /\ m64_clear b (N.of_nat i) = mk_clear b i.
-Admitted.
+Proof.
+  intros b i Hb Hi. unfold m64_clear, mk_clear. rewrite m64_bit by lia. split.
+  - apply word_ok_land_l. assumption.
+  - apply N.bits_inj. intro j. rewrite N.land_spec, N.clearbit_eqb, wnot_spec, N.pow2_bits_eqb.
+    destruct (N.ltb_spec j 64) as [Hj|Hj]; [reflexivity|].
+    rewrite (word_high_bits Hb Hj). reflexivity.
+Qed.
+
 Theorem m64_not_refines : forall b, word_ok b -> word_ok (m64_not b) /\ m64_not b = mk_not 64 b.
-Admitted.
+Proof.
+  intros b Hb. split; [apply word_ok_wnot; assumption | reflexivity].
+Qed.
+
+Lemma m64_scan_spec : forall b, word_ok b -> forall cnt j, j + cnt <= 64 ->
+  m64_scan b j cnt = mk_to_list_from b j cnt.
+Proof.
+  intros b Hb cnt. induction cnt as [|cnt IH]; intros j Hj; cbn [m64_scan mk_to_list_from].
+  - reflexivity.
+  - rewrite m64_get_refines by (assumption || lia). rewrite IH by lia. reflexivity.
+Qed.
+
 Theorem m64_to_types_spec : forall b total, word_ok b -> total <= 64 ->
   (forall j, mk_get b j = true -> j < total) ->
   m64_to_types b total = mk_to_list b total.
-Admitted.
+Proof.
+  intros b total Hb Ht H. unfold m64_to_types, mk_to_list.
+  destruct (N.eqb_spec b 0) as [->|Hz].
+  - symmetry. apply mk_to_list_from_nil. intros j _. unfold mk_get. apply N.bits_0.
+  - apply m64_scan_spec; [assumption | lia].
+Qed.
 
 (** Both widths agree on masks that only use bits below 64 (tiny build = default build there). *)
 Theorem m64_m256_agree : forall x, word_ok x ->
   m256_to_N {| b0 := x; b1 := 0; b2 := 0; b3 := 0 |} = x.
-Admitted.
+Proof.
+  intros x _. unfold m256_to_N; cbn [b0 b1 b2 b3].
+  rewrite !N.shiftl_0_l, !N.lor_0_r. reflexivity.
+Qed.
+
+(** *** Assumption audit: every theorem is closed under the global context *)
+Print Assumptions mk_get_set.
+Print Assumptions mk_get_clear.
+Print Assumptions mk_get_or.
+Print Assumptions mk_contains_spec.
+Print Assumptions mk_contains_any_spec.
+Print Assumptions mk_get_not.
+Print Assumptions mk_get_of_list.
+Print Assumptions mk_to_list_spec.
+Print Assumptions mk_to_list_sorted.
+Print Assumptions mk_eq_ext.
+Print Assumptions m256_get_refines.
+Print Assumptions m256_set_refines.
+Print Assumptions m256_clear_refines.
+Print Assumptions m256_or_refines.
+Print Assumptions m256_not_refines.
+Print Assumptions m256_equals_refines.
+Print Assumptions m256_contains_refines.
+Print Assumptions m256_zero_ok.
+Print Assumptions m256_is_zero_refines.
+Print Assumptions m256_contains_any_refines.
+Print Assumptions m256_to_types_spec.
+Print Assumptions m64_get_refines.
+Print Assumptions m64_set_refines.
+Print Assumptions m64_clear_refines.
+Print Assumptions m64_not_refines.
+Print Assumptions m64_to_types_spec.
+Print Assumptions m64_m256_agree.
